@@ -254,3 +254,48 @@ def xstr(n, aliases=None):
     if n.k == "CallExpr":
         return "%s(%s)" % (estr(n.kids[0]), ", ".join(xstr(a, aliases) for a in n.kids[1:]))
     return estr(n)
+
+
+def callname(call):
+    """Direct callee name, or the macro name for calls made through function-like macros
+    (numpy's PyArray_* API macros expand to calls through a function-pointer table)."""
+    c = callee(call)
+    if c is not None:
+        return c
+    return call.mac if call is not None and call.k == "CallExpr" else None
+
+
+def macro_args(text):
+    """Top-level comma-separated arguments of a macro/function invocation text `NAME(a, b(c, d), e)`."""
+    i = text.find("(")
+    if i < 0:
+        return []
+    depth = 0
+    cur = ""
+    out = []
+    j = i
+    while j < len(text):
+        ch = text[j]
+        if ch == "(":
+            depth += 1
+            if depth > 1:
+                cur += ch
+        elif ch == ")":
+            depth -= 1
+            if depth == 0:
+                out.append(cur.strip())
+                break
+            cur += ch
+        elif ch == "," and depth == 1:
+            out.append(cur.strip())
+            cur = ""
+        elif ch == '"':
+            k = j + 1
+            while k < len(text) and text[k] != '"':
+                k += 2 if text[k] == "\\" else 1
+            cur += text[j:k + 1]
+            j = k
+        else:
+            cur += ch
+        j += 1
+    return [" ".join(a.split()) for a in out]
